@@ -26,7 +26,11 @@ Sparse(r) == (r.exit = 0 /\ r.holesDetectable) =>
                 /\ r.dblocks <= r.sblocks + r.slackBlocks
                 /\ \A i \in 1..Len(r.dmap) : Within(r.dmap[i], r.smap, r.fsblock)
 
-Clauses(r) == (IF Exact(r) THEN {} ELSE {"EXACT"}) \cup (IF Sparse(r) THEN {} ELSE {"SPARSE"})
+\* C11, growth form: the same layout with every hole four times larger allocates the same (r.growBase = blocks of the base run)
+Growth(r) == (r.exit = 0 /\ r.holesDetectable /\ r.growBase >= 0) =>
+                r.dblocks <= r.growBase + r.slackBlocks /\ r.growBase <= r.dblocks + r.slackBlocks
+
+Clauses(r) == (IF Growth(r) THEN {} ELSE {"GROWTH"}) \cup (IF Exact(r) THEN {} ELSE {"EXACT"}) \cup (IF Sparse(r) THEN {} ELSE {"SPARSE"})
 SetToSeq(S) == CHOOSE f \in [1..Cardinality(S) -> S] : \A i, j \in 1..Cardinality(S) : i # j => f[i] # f[j]
 
 VARIABLE l
